@@ -36,7 +36,7 @@ RULE = ("Twin runs. Stream S and S' = S with the VALUES (prices, payloads, table
         "event before the end of the episode.")
 ASSUMPTIONS = ["value perturbations only: adding/removing future timestamps legitimately changes `done`"]
 REQUIRED = ["C02:no-lookahead", "C02:next-trades-independent-of-future", "C02:xy-no-lookahead"]
-REQUIRED_CATS = ["generic", "xy", "xy-nan-straddles-cut", "xy-row-missing-at-cut", "cut:first", "cut:last", "latency>0", "late-fold", "markov", "warmup"]
+REQUIRED_CATS = ["custom-events-from-table", "xy-sparse-features", "generic", "xy", "xy-nan-straddles-cut", "xy-row-missing-at-cut", "cut:first", "cut:last", "latency>0", "late-fold", "markov", "warmup"]
 TECHNIQUE = "runtime monitoring: twin executions on streams that agree up to the cut, compared call by call on canonical digests"
 LEVEL_TEXT = ("Exploration by twin runs: the same real environment is executed on two inputs that agree on everything stamped <= t; any "
               "difference in an output landing at or before t is a witness of look-ahead. Fixed actions prevent a leak from hiding "
@@ -61,8 +61,9 @@ class FA(Feature):
 
 
 def run_generic(spec, pert_after=None, prng=None):
-    grid, evspec, L, d, acts, cs, fold, markov, warm = spec
+    grid, evspec, L, d, acts, cs, fold, markov, warm, table = spec
     evs = []
+    rows = []
     npert = 0
     for (kind, t, c, a, b, uid) in evspec:
         if pert_after is not None and t > pert_after:
@@ -73,11 +74,17 @@ def run_generic(spec, pert_after=None, prng=None):
         if kind == "q":
             e = EventNBBO(t, c, a, b)
             e.uid = uid
+            evs.append(e)
+        elif table:
+            # published at t (the table index) about an EARLIER reference period (column 'time')
+            rows.append((t, {"uid": uid, "v": a, "time": t - timedelta(days=1 + uid % 5)}))
         else:
-            e = ep.EvA(t, uid, a)
-        evs.append(e)
+            evs.append(ep.EvA(t, uid, a))
     tr = Transmitter(grid, {"training-set": fold}, markov, warm)
     tr.add_events(evs)
+    if rows:
+        df = pd.DataFrame([r[1] for r in rows], index=pd.DatetimeIndex([r[0] for r in rows]))
+        tr.add_custom_events(df, ep.EvA)
     sink = ep.Sink()
     env = TradingEnv(action_space=BoxPortfolio(cs, -1, 1), transmitter=tr,
                      state=ep.Rec(sink, features=[FA()]),
@@ -153,7 +160,10 @@ def generic(ctx):
     fold = [grid[i0], grid[-1]]
     markov = rng.random() < 0.2
     warm = rng.choice([None, None, timedelta(seconds=rng.choice([30, 4000, 90000]))])
-    spec = (grid, ev, L, d, acts, cs, fold, markov, warm)
+    table = rng.random() < 0.3
+    if table:
+        ctx.cat("custom-events-from-table")
+    spec = (grid, ev, L, d, acts, cs, fold, markov, warm, table)
     steps = grid[i0:]
     base, _ = run_generic(spec)
     which = rng.choice(["first", "middle", "last"])
@@ -199,7 +209,7 @@ def xy(ctx):
     X = pd.DataFrame(rng.normal(0, 1, [n, 3]), dates)
     Y = pd.DataFrame(100 * np.exp(np.cumsum(rng.normal(0, 0.01, [n, 2]), 0)), dates, columns=["a", "b"])
     for _ in range(r.randint(0, 5)):
-        X.iloc[r.randint(0, n - 1), r.randrange(3)] = np.nan
+        X.iloc[r.randint(0, len(X) - 1), r.randrange(3)] = np.nan
     for _ in range(r.randint(0, 3)):
         Y.iloc[r.randint(12, n - 3), r.randrange(2)] = np.nan   # not on the first step dates (markov reset: empty book, DESIGN 4.2-e)
     window = r.choice([1, 2, 5])
@@ -207,13 +217,21 @@ def xy(ctx):
     kfit = r.randint(20, n // 2)
     tfit = dates[kfit]
     kcut = r.randint(kfit, n - 3)
+    sparse = r.random() < 0.4
+    if sparse:
+        # features sparser than prices (e.g. weekly vs daily): transformer_end is then usually NOT a
+        # label of X, and the cut is placed at / just after it, before the next feature row
+        keep = sorted(set(range(0, n, r.choice([2, 3, 5]))) - {kfit})
+        X = X.iloc[keep]
+        kcut = min(kfit + r.randint(0, 1), n - 3)
+        ctx.cat("xy-sparse-features")
     tcut = dates[kcut]
     # missing values straddling the cut: any backward fill / interpolation
     # would pull a perturbed value into an observation dated <= cut
-    if r.random() < 0.6:
+    if not sparse and r.random() < 0.6:
         X.iloc[max(kcut - r.randint(0, 2), 1): kcut + 1, r.randrange(3)] = np.nan
         ctx.cat("xy-nan-straddles-cut")
-    if r.random() < 0.3:
+    if not sparse and r.random() < 0.3:
         X = X.drop(X.index[kcut])
         ctx.cat("xy-row-missing-at-cut")
     rate = pd.Series(rng.uniform(0, 0.03, n), dates, name="r")
@@ -248,7 +266,9 @@ def xy(ctx):
     idx_after = [j for j in range(kcut + 1, n - 2)]
     for _ in range(r.randint(0, 3)):
         if idx_after:
-            X2.iloc[min(r.choice(idx_after), len(X2) - 3), r.randrange(3)] = np.nan
+            xa = [j for j in range(len(X2) - 2) if X2.index[j] > tcut]
+            if xa:
+                X2.iloc[r.choice(xa), r.randrange(3)] = np.nan
             Y2.iloc[r.choice(idx_after), r.randrange(2)] = np.nan
     pert = run(X2, Y2, rate2)
     ncmp = 0
